@@ -270,7 +270,19 @@ def check_threads(item):
             p.on('callCellValue', lambda cell, done: (time.sleep(0), done(i * 10 + len(cell.label))))
             p.on('callRangeValue', lambda a, b, done: done([i, i + 1]))
             return p
-        plans = [[rng.choice(THREAD_FORMULAS) for _ in range(rounds)] for _ in range(nthreads)]
+        if rounds < 0:
+            # every registered function once per thread, after a yield, on a text label, a cell and a number: whatever a
+            # built-in does with the host (none should know which parser called it), alone and concurrently it is the same
+            from hotxlfp import formulas
+            names = [n for n in formulas.supported() if n not in ('NOW', 'TODAY', 'RAND', 'RANDBETWEEN')]
+            base = ['REC(Y(1),%s(%s))' % (n, a) for n in names for a in ('"A1"', 'A1', '"A1:B2"')]
+            plans = []
+            for _ in range(nthreads):
+                pl = base[:]
+                rng.shuffle(pl)
+                plans.append(pl)
+        else:
+            plans = [[rng.choice(THREAD_FORMULAS) for _ in range(rounds)] for _ in range(nthreads)]
         solo = [[outcome(build(i), f) for f in plans[i]] for i in range(nthreads)]
         got = [None] * nthreads
         parsers = [build(i) for i in range(nthreads)]
@@ -332,7 +344,8 @@ def explore(ctx):
                     d2.append((oi, mi, leaf, back))
     work += [('depth2', x) for x in d2]
     nt = 60 if big else 12
-    work = [('threads', (rng.choice([2, 3, 4, 8]), 200 if big else 60, ctx.seed * 100 + k)) for k in range(nt)] + work
+    work = [('threads', (rng.choice([2, 3, 4, 8]), 200 if big else 60, ctx.seed * 100 + k)) for k in range(nt)] + \
+        [('threads', (n, -1, ctx.seed * 100 + 50 + n)) for n in ((2, 3, 4, 6, 8) if big else (2, 4))] + work
     # in batches: on a tree where isolation is broken evaluations may never return; once a hundred violations are in
     # hand the rest of the sweep is skipped (the check must end in bounded time on a broken tree too)
     done = 0
@@ -374,6 +387,7 @@ def search(ctx, proof, res):
                     work.append(('nested', (oi, hook, inner, where, 1, None)))
     for k in range(30):
         work.append(('threads', (rng.choice([2, 4, 8]), 150, 1000 + k)))
+    work += [('threads', (n, -1, 2000 + n)) for n in (2, 3, 4, 8)]
     for (k, c), vs in zip(work, pmap(_worker, work, limit=120.0, confirm=False)):
         if vs == HANG:
             continue
